@@ -692,6 +692,43 @@ def run(ctx):
         elif n:
             ctx.notes["uring_route"] = (f"{stats['uring_via_uring']} requests completed through io_uring, "
                                         f"{stats['uring_via_pool']} of that route's requests went to the thread pool (ops without a submitter)")
+    # uv_fs_req_cleanup in every result / iteration state with exact heap accounting (harness/c11_cleanup.c)
+    cexe = ctx.harness("c11_cleanup", ["harness/c11_cleanup.c"], link_lib=True) if not ctx.replay or "cleanup" in str(ctx.replay) else None
+    if cexe:
+        ref, ncase = None, 0
+        for m in ("sync", "pool", "uring"):
+            d = ctx.tmp / f"cl{m}"; d.mkdir()
+            rc, out, err = ctx.run(cexe, [m, d], env={"UV_USE_IO_URING": "1", "UV_THREADPOOL_SIZE": "1"}, timeout=300)
+            ls = out.splitlines()
+            if "ROUTE-SKIPPED" in ls:
+                ctx.notes["cleanup_accounting_" + m] = "skipped: no SQPOLL ring"; continue
+            cases = [l for l in ls if l.startswith("case ")]
+            ctx.count(len(cases)); ncase += len(cases)
+            bad = [l for l in cases if not re.search(r" uvblocks=0 heap=0 fds=0 ", l)]
+            if not bad and (rc != 0 or not ls or not ls[-1].startswith("end ")):
+                ctx.violation(f"cleanup-harness-crash-{m}", f"C11 cleanup accounting ({m}) exited {rc}: {err[-600:]}", {"mode": "cleanup", "route": m})
+                continue
+            if bad:
+                kind = bad[0].split()[1].split("-")[0]
+                kind = bad[0].split()[1].split("-")[1] if kind == "cancel" else kind
+                ctx.violation(f"cleanup-residue-{kind}",
+                              f"C11 ({m} route): after uv_fs_req_cleanup the request still owns memory / descriptors: `{bad[0]}` "
+                              f"(uvblocks = live blocks of libuv's allocator, heap = bytes live in the process heap, fds = open descriptors; "
+                              f"{len(bad)} of {len(cases)} states affected)", {"mode": "cleanup", "route": m, "case": bad[0].split()[1]})
+                continue
+            res = [re.sub(r" cb=\d+$", "", l) for l in cases if not l.startswith("case cancel")]
+            if ref is None:
+                ref = res
+            elif res != ref:
+                k = next(i for i in range(min(len(res), len(ref))) if res[i] != ref[i])
+                ctx.violation(f"cleanup-result-differs-{m}", f"C11 cleanup cases: {m} `{res[k]}` vs sync `{ref[k]}`", {"mode": "cleanup", "route": m})
+            else:
+                ctx.validated(len(cases))
+            for l in cases:
+                ctx.nontrivial("C" + l.split()[1])
+        ctx.notes["cleanup_accounting"] = (f"{ncase} request states (46 kinds x success/failure, scandir after k of n next-calls incl. EOF, "
+                                           "opendir/readdir/closedir abandoned after j batches, cancelled requests) with uv-allocator blocks, "
+                                           "process heap bytes and descriptor count all back to the pre-request value")
     # forced -EOPNOTSUPP completion (fallback of uv__poll_io_uring to the thread pool): same lines as unforced, no leak
     fexe = ctx.harness("c11_fallback", ["harness/c11_fallback.c"], link_lib=True) if not ctx.replay else None
     if fexe:
